@@ -14,7 +14,7 @@ from ..coqrun import cstr, cZ, cnat, cbool, clist, cpair, copt
 from ..tok import S
 
 PID = "C15"
-COQ_HEADER = ("From stdpp Require Import gmap strings.\nFrom SK Require Import lib.Tok model.C15_Model model.C15_Ext model.C15_View model.C15_ViewObs model.C15_Repr.\n"
+COQ_HEADER = ("From stdpp Require Import gmap strings.\nFrom SK Require Import lib.Tok model.C15_Model model.C15_Ext model.C15_View model.C15_ViewObs model.C15_Repr model.C15_Side model.C16_Model model.C15_Bulk.\n"
               "Local Open Scope string_scope.\n")
 SHARD = 150
 RULE = ("operation histories over k networks. Old language (add generated/explicit id, remove reaction, remove species +/- prune, "
@@ -30,6 +30,9 @@ RULE = ("operation histories over k networks. Old language (add generated/explic
         "histories, backends on empty networks / re-bound slots, in-place coefficient edits. "
         "Repr cases (kinds h4-*, round 5): a history of the extended language, then repr() of every network, stored reaction and caller-held side "
         "(ids with digits in front / in the middle / none / empty, equal sort keys, labels that are strings or integers). "
+        "Side API (kinds h5-*): the mapping API of RXNSide on caller-held objects (constructor with empty iterables, set / incr / pop / update / copy, every read-only method). "
+        "Bulk (kinds h6-*): parse_rxns in every input form (lines, tuples, Mapping, rules=) and add_rxn_from_str as operations of the histories, on non-empty networks, with repeated "
+        "lines and the same reaction under several rules; the oracle replays each bulk call as the individual add_rxn calls it stands for and demands equal state. "
         "A case is non-trivial when at least two ops succeed and a remove/merge/copy op occurs; distinct = distinct op lists")
 EXHAUSTIVE = {"quick": True, "thorough": True}     # exh-empty (depth 2, 51 ops) and exh-reduced (depth 3 / 4, 9 ops) are exhaustive sub-spaces
 EXPLANATION = ("Theorems: invariant (indices exact, species = occurring (+kept), mol within species, ids unique, order list = key set) "
@@ -45,8 +48,8 @@ EXPLANATION = ("Theorems: invariant (indices exact, species = occurring (+kept),
 TRUSTED_BASE = [
     "Coq 8.16.1 kernel + vm_compute (no native_compute)",
     "std++ 1.8.0 gmap/gset (axiom-free)",
-    "hand-written models coq/model/C15_Model.v + coq/model/C15_Ext.v + coq/model/C15_View.v + coq/model/C15_Repr.v (on the text functions of coq/model/C16_Model.v) tied to synkit/CRN/Hypergraph/{hypergraph,rxn,hyperedge,backend}.py by the per-run correspondence",
-    "harness encoders harness/props/C15.py + harness/gen/c15_ext.py + harness/gen/c15_view.py + harness/gen/c15_repr.py (op list -> Gallina literal; attributes/answers -> tok; str()/int() coercion of labels and counts; json.dumps of molecule labels)",
+    "hand-written models coq/model/C15_Model.v + coq/model/C15_Ext.v + coq/model/C15_View.v + coq/model/C15_Repr.v + coq/model/C15_Side.v + coq/model/C15_Bulk.v (on the text functions / parser model of coq/model/C16_Model.v) tied to synkit/CRN/Hypergraph/{hypergraph,rxn,hyperedge,backend}.py by the per-run correspondence",
+    "harness encoders harness/props/C15.py + harness/gen/c15_ext.py + harness/gen/c15_view.py + harness/gen/c15_repr.py + harness/gen/c15_side.py + harness/gen/c15_bulk.py (op list -> Gallina literal; attributes/answers -> tok; str()/int() coercion of labels and counts; json.dumps of molecule labels)",
     "CPython dict/set semantics; copy.deepcopy",
 ]
 ASSUMPTIONS = ["species labels and ids are printable ASCII strings", "molecule labels are strings",
@@ -105,6 +108,12 @@ def _apply(nets, op):
 
 
 def impl(case):
+    if case.get("kind", "").startswith("h6"):
+        from ..gen import c15_bulk
+        return c15_bulk.impl6(case)
+    if case.get("kind", "").startswith("h5"):
+        from ..gen import c15_side
+        return c15_side.impl5(case)
     if case.get("kind", "").startswith("h4"):
         from ..gen import c15_repr
         return c15_repr.impl4(case)
@@ -151,6 +160,12 @@ def _op(op):
 
 
 def coq_case(case):
+    if case.get("kind", "").startswith("h6"):
+        from ..gen import c15_bulk
+        return c15_bulk.coq_case6(case)
+    if case.get("kind", "").startswith("h5"):
+        from ..gen import c15_side
+        return c15_side.coq_case5(case)
     if case.get("kind", "").startswith("h4"):
         from ..gen import c15_repr
         return c15_repr.coq_case4(case)
@@ -186,10 +201,17 @@ def _check_net(H, spec, kept, where):
     for (_, l, r) in impl_edges.values():
         occurring |= set(l) | set(r)
     sp = set(H.species)
+    # `kept` = the species the caller chose to keep when stripping them (remove_species(x, prune_orphans=False)) and that have not
+    # entered a reaction since (a species that occurs again is an ordinary species: it goes when its last reaction goes)
+    for (_, l, r) in spec.values():
+        kept -= set(l) | set(r)
     if not occurring <= sp:
         fails.append("species set misses occurring species %r" % sorted(occurring - sp))
     if not sp <= occurring | kept:
         fails.append("species set has non-occurring, non-kept species %r" % sorted(sp - occurring - kept))
+    if not kept <= sp:
+        fails.append("species the caller chose to keep (remove_species(..., prune_orphans=False)) are missing from the species set: %r"
+                     % sorted(kept - sp))
     for x in sp | set(H.species_to_in_edges) | set(H.species_to_out_edges):
         prod = {k for k, (_, l, r) in impl_edges.items() if x in r}
         cons = {k for k, (_, l, r) in impl_edges.items() if x in l}
@@ -214,6 +236,12 @@ def _check_net(H, spec, kept, where):
 
 
 def oracle(case):
+    if case.get("kind", "").startswith("h6"):
+        from ..gen import c15_bulk
+        return c15_bulk.oracle6(case)
+    if case.get("kind", "").startswith("h5"):
+        from ..gen import c15_side
+        return c15_side.oracle5(case)
     if case.get("kind", "").startswith("h4"):
         from ..gen import c15_repr
         return c15_repr.oracle4(case)
@@ -269,6 +297,8 @@ def oracle(case):
                 spec[i] = new
                 if not op[3]:
                     kept[i].add(x)
+                else:
+                    kept[i].discard(x)
             elif er != "KeyError":
                 fails.append(dict(clause="remove-species-error", detail="op %d: %r" % (t, er)))
         elif k == "merge":
@@ -313,7 +343,7 @@ def shrink(case, fl):
                     break
             except Exception:
                 pass
-    return dict(case, ops=ops, skip=0, lite=False, name=case.get("name", "") + "(shrunk)") if case.get("kind", "").startswith(("h2", "h3", "h4")) \
+    return dict(case, ops=ops, skip=0, lite=False, name=case.get("name", "") + "(shrunk)") if case.get("kind", "").startswith(("h2", "h3", "h4", "h5", "h6")) \
         else dict(case, ops=ops, name=case.get("name", "") + "(shrunk)")
 
 
@@ -458,6 +488,10 @@ def gen_cases(tier, rng):
     cases += c15_view.gen_cases3(tier, rng)
     from ..gen import c15_repr
     cases += c15_repr.gen_cases4(tier, rng)
+    from ..gen import c15_side
+    cases += c15_side.gen_cases5(tier, rng)
+    from ..gen import c15_bulk
+    cases += c15_bulk.gen_cases6(tier, rng)
     return cases
 
 LEVEL_TEXT = ("Machine-checked proof (Coq) over an executable model of CRNHyperGraph: the store invariant (indices exact, species = occurring "
